@@ -35,7 +35,7 @@ PROPS = {
                        "an independent BTreeMap oracle."),
         "level_note": ("Trusted: Lean kernel; the P1 model abstracts storage below the log-record level (tied by correspondence only); "
                        "hash injectivity (A-hash); compression round trip (A-compress); harness generators."),
-        "lean": ["Pdb.Props.C01"],
+        "lean": ["Pdb.Props.C01", "Pdb.Proofs.Order"],
         "harness": [{"cmd": "p1", "quick": 300, "thorough": 20000}],
         "rule": P1_RULE,
         "assumptions": [A_HASH, A_COMPRESS, P2_GAP],
@@ -71,7 +71,7 @@ PROPS = {
                        "tied by correspondence only); crash points inside a single file operation are represented by (j, n) in the model "
                        "and sampled at step boundaries + log-tail cuts on the implementation; page-granular power loss is C12; damaged "
                        "logs are C13."),
-        "lean": ["Pdb.Props.C02"],
+        "lean": ["Pdb.Props.C02", "Pdb.Proofs.Order"],
         "harness": [{"cmd": "p1", "quick": 250, "thorough": 15000}],
         "rule": P1_RULE,
         "assumptions": [A_HASH, A_COMPRESS, P2_GAP, "crash instants on the implementation: step boundaries of the stepping API with the unsynced log tail cut at a seeded length"],
@@ -83,7 +83,7 @@ PROPS = {
                        "Tied to the code by drop/reopen and crash images at arbitrary pipeline positions of generated histories."),
         "level_note": ("Trusted: Lean kernel; P1 abstraction (see C02); the real drop may leave flushed log files to be replayed by the next "
                        "open, which the model folds into one step; worker-thread shutdown is C15."),
-        "lean": ["Pdb.Props.C03"],
+        "lean": ["Pdb.Props.C03", "Pdb.Proofs.Order"],
         "harness": [{"cmd": "p1", "quick": 250, "thorough": 15000}],
         "rule": P1_RULE,
         "assumptions": [A_HASH, A_COMPRESS, P2_GAP],
@@ -130,7 +130,7 @@ PROPS = {
         "level_note": ("Trusted: Lean kernel; P1 abstraction; 'no panic' and 'the failing call returns the error' are checked on the "
                        "implementation only (catch_unwind at every injected fault); worker threads are not exercised here (the thread-local "
                        "fault counter cannot reach them): the worker wrapper is represented by the hook verif_store_err."),
-        "lean": ["Pdb.Props.C16"],
+        "lean": ["Pdb.Props.C16", "Pdb.Proofs.Order"],
         "harness": [{"cmd": "c16", "quick": 150, "thorough": 8000}],
         "rule": ("fault-free stretches of a generated history, then one stepping call (process / flush / enact / clean / reindex) or Db::open of "
                  "a crash image executed with set_number_of_allowed_io_operations(i) for a seeded index i (0, 1, or up to 60), failure "
@@ -304,7 +304,7 @@ PROPS = {
                        "create/truncate/unlink/set_len durable at once, directory entries never lost) stated in Pdb/Model/Dur.lean; a record cut by the "
                        "surviving log prefix is rejected whole (C13); stores are observed as page diffs at stepping-API boundaries (single-threaded), not "
                        "per store."),
-        "lean": ["Pdb.Props.C12"],
+        "lean": ["Pdb.Props.C12", "Pdb.Proofs.Order"],
         "harness": [{"cmd": "c12", "quick": 400, "thorough": 8000, "max_search": 40000},
                     {"cmd": "c12x", "quick": 5, "thorough": 100, "max_search": 200}],
         "rule": ("histories from one SplitMix64 state: 1..3 columns (plain / preimage / rc, hash or btree, uniform or salted, lz4), 3..12 keys per "
@@ -334,7 +334,7 @@ PROPS = {
         "level_note": ("Partial by nature: the theorems are about the lock-granular LTS; mmap stores / relaxed atomics inside the "
                        "critical sections are not modelled; schedules of the real crate are sampled. Stated for plain columns "
                        "(rc / preimage columns weaken as in C07). Trusted: Lean kernel, hook fixes/hook-c05.diff, harness oracles."),
-        "lean": ["Pdb.Props.C05"],
+        "lean": ["Pdb.Props.C05", "Pdb.Proofs.Order"],
         "harness": [{"cmd": "c05", "quick": 8, "thorough": 24, "model": False, "timeout": 3000}],
         "rule": ("cases from one SplitMix64 state, kind = seed % 4: 0|1 threaded stress (4..8 keys bumped together per transaction, "
                  "value sizes from 16 B to 40 kB incl. multipart so entries change tier, filler thread growing one index chunk: 2..5 "
